@@ -17,7 +17,7 @@ RULE = (
     "bifurcation node (>=2 entering or >=2 leaving links) and all outputs are finite. Distinct = SHA-1 of the case."
 )
 BUDGET = {"quick": {"examples": 500, "shards": 4}, "thorough": {"fuzz_runs": 3000, "examples": 10000, "shards": 16}}
-EXPECTED_LABELS = ("rollout", "merge", "bifurcation", "1in-multi-out", "multi-in-multi-out", "interior-ramp", "self-loop",
+EXPECTED_LABELS = ("int-arrays", "rollout", "merge", "bifurcation", "1in-multi-out", "multi-in-multi-out", "interior-ramp", "self-loop",
                    "origin:ideal", "origin:simp_unl", "engine:SX", "engine:MX", "compact:0", "compact:1", "compact:2")
 ASSUMPTIONS = ["tolerance 1e-9 x (sum of absolute values of the balance terms)"]
 RTOL = 1e-9
@@ -167,6 +167,27 @@ def rollout(ctx, sp, state, nxt, built):
     balance(ctx, sp, state2, got2, "numpy-rollout")
 
 
+def int_arrays(ctx, sp, state):
+    """The same balance with integer-dtype user arrays (integer-valued state)."""
+    import math
+
+    from lib.sut import NumpyEngine, np
+
+    if not all(math.isfinite(x) for s_ in state.values() for v in s_.values() for x in v):
+        return
+    st_i = {i: {k: [float(int(x)) for x in v] for k, v in s_.items()} for i, s_ in state.items()}
+    if S.singular(sp, st_i):
+        return
+    net, els, _ = S.build(sp)
+    ic = {els[i]: {k: np.array([int(x) for x in v], dtype=np.int64) for k, v in s_.items()} for i, s_ in st_i.items()}
+    r = guarded(ctx, "numpy-int-step", lambda: net.step(init_conditions=ic, engine=NumpyEngine(), **S.pars_kwargs(sp)))
+    if crashed(r):
+        return
+    ctx.label("int-arrays")
+    got = {i: {k: np.asarray(v, dtype=float).reshape(-1) for k, v in el.next_states.items()} for i, el in els.items() if el.next_states}
+    balance(ctx, sp, st_i, got, "numpy-int")
+
+
 def check_case(case, ctx):
     sp = case["spec"]
     feats = S.features(sp)
@@ -189,6 +210,8 @@ def check_case(case, ctx):
             finite &= balance(ctx, sp, state, got[0], "numpy")
             if case.get("rollout") and state is case["states"][-1]:
                 rollout(ctx, sp, state, got[0], built)
+            elif state is case["states"][0]:
+                int_arrays(ctx, sp, state)
         if F is not None:
             def call():
                 res = F(*lay.args(comp["compact"], state))
